@@ -290,6 +290,8 @@ def systematic_cases():
         cases.append(mk_case(None, True, "included file: " + what, raw_cond="include('inc.cond')\n" + HELPERS[""] + tail, extra_files={"inc.cond": body}))
         cases.append(mk_case(None, True, "included file (project-relative, from a dependency's COND): " + what, raw_cond=HELPERS[""] + "run_command(name='t', run='true', deps=['//lib:u'])\n",
                              extra_files={"cfg/inc.cond": body, "lib/COND": HELPERS["lib"] + "include('//cfg/inc.cond')\n" + tail.replace("name='t'", "name='u'")}))
+    cases.append(mk_case(None, True, "include(path=...) with the documented parameter name", raw_cond="include(path='inc.cond')\n" + HELPERS[""] + use, extra_files={"inc.cond": inc_ok}))
+    cases.append(mk_case(None, True, "include(path=...) project-relative, documented parameter name", raw_cond="include(path='//cfg/inc.cond')\n" + HELPERS[""] + use, extra_files={"cfg/inc.cond": inc_ok}))
     cases.append(mk_case(None, True, "include twice", raw_cond="include('inc.cond')\ninclude('inc.cond')\n" + HELPERS[""] + use, extra_files={"inc.cond": inc_ok}))
     cases.append(mk_case(None, False, "include missing file", raw_cond="include('nope.cond')\n" + HELPERS[""] + ok_t))
     cases.append(mk_case(None, False, "include missing project-relative", raw_cond="include('//nope/x.cond')\n" + HELPERS[""] + ok_t))
